@@ -263,6 +263,13 @@ func c12Arity(rng *rand.Rand, row map[string]interface{}, useHTTP bool) (map[str
 	case code != 0:
 		res = "err"
 	}
+	if res != "ok" && h.ran == 0 {
+		// the same rejected call as a notification (no id), alone and as a batch element: it must not reach the handler either
+		// (whatever it executes is added to "ran")
+		nb := fmt.Sprintf(`{"jsonrpc":"2.0","method":"T.%s"%s}`, name, params)
+		c12Post(srv, ts, nb)
+		c12Post(srv, ts, "["+nb+","+nb+"]")
+	}
 	return map[string]interface{}{"ran": h.ran, "res": res}, nil
 }
 
